@@ -126,6 +126,7 @@ class Program:
         self.classes: dict[str, ClassInfo] = {}        # qual -> ClassInfo
         self.funcs: dict[str, FuncInfo] = {}           # fid -> FuncInfo
         self.parse_errors: list = []
+        self.alpha_log: list = []
         pkgdir = os.path.join(self.repo, self.PKG)
         if not os.path.isdir(pkgdir):
             raise AnalysisError('E1', f"package directory {pkgdir} not found")
@@ -166,6 +167,10 @@ class Program:
             tree = ast.parse(src, filename=path)
         except SyntaxError as err:
             raise AnalysisError('E1', f"{path} does not parse: {err}") from None
+        if extra is None:
+            # E12: rename locals back to the reference names where that is an exact alpha-conversion
+            from .alpha import canonicalise
+            self.alpha_log.extend((name,) + t for t in canonicalise(name, tree))
         mod = Module(name, os.path.relpath(path, self.repo), src, tree, is_pkg)
         (self.extra if extra is not None else self.modules)[name] = mod
 
